@@ -20,7 +20,7 @@ from fractions import Fraction as F
 import numpy as np
 
 PROP = 'C09'
-TARGETS = ['TC09a', 'TC09b', 'TC09c', 'TC09d', 'TC09e', 'TC09f']
+TARGETS = ['TC09a', 'TC09b', 'TC09c', 'TC09d', 'TC09e', 'TC09f', 'TC09g']
 LEAN_MODULES = ['HdVerif.Props.C09']
 MODEL_MODULES = ['HdVerif.Model.Match']
 NAMESPACE = 'HdVerif.C09'
@@ -32,7 +32,9 @@ RULE = ('chain: random source volume (shape 1..6 per axis, 48 signed axis permut
         'boundary, or with another frame of reference / coordinate system; geq: pairs differing in one attribute or one '
         'affine entry at 1/4.04 and 4.04 times the allclose boundary; v2v: two geometries and point sets inside / exactly '
         'on the boundary (power-of-two class) / outside, all four (round, check) combinations, plus '
-        'map_reference_to_indices.  Non-trivial = the call reaches the comparison of interest (not an early refusal); '
+        'map_reference_to_indices; v2vdt: index arrays of dtype int8/uint8/int16/uint16/int32/uint32/int64/uint64/float16/32/64/bool '
+        'with magnitudes up to the limits of the dtype (64-bit: 2^40), power-of-two class geometries, exact integer/Fraction '
+        'oracle.  Non-trivial = the call reaches the comparison of interest (not an early refusal); '
         'distinct by (stream, ops / perturbation kind, shapes, orientation class, outcome).')
 ASSUMPTIONS = [
     'spacing = norm of an affine column and unit vector = column / norm return the factors the geometry was built from '
@@ -882,6 +884,115 @@ def run_v2v_case(ctx, i, reqs, pending):
         pending.append(('pts', case, impl, tolr))
 
 
+# ------------------------------------------------------------------------------------------ stream: dtype of the index array
+DTYPES = ['int8', 'uint8', 'int16', 'uint16', 'int32', 'uint32', 'int64', 'uint64', 'float16', 'float32', 'float64', 'bool']
+FLOAT_TAG = {'float16': 'f16', 'float32': 'f32', 'float64': 'f64'}
+
+
+def gen_v2vdt(ctx, i):
+    """power-of-two class geometries (every float64 operation exact), index arrays of every dtype with magnitudes up to the
+    limits of the dtype (64-bit types: |index| <= 2^40 so that float64 stays exact)"""
+    r = ctx.rng('v2vdt', i)
+    a = {'dir': [list(d) for d in r.choice(SP)], 'spacing': [r.choice([F(1, 4), F(1, 2), F(1), F(2), F(4)]) for _ in range(3)],
+         'pos': [F(r.randint(-64, 64), r.choice([1, 2, 4])) for _ in range(3)], 'shape': [r.choice([1, 2, 3, 4, 5, 6]) for _ in range(3)],
+         'cs': 'PATIENT', 'for': None, 'exact': True}
+    b = copy_geom(a)
+    b['dir'] = [list(d) for d in r.choice(SP)]
+    b['spacing'] = [r.choice([F(1, 4), F(1, 2), F(1), F(2), F(4)]) for _ in range(3)]
+    if r.random() < 0.5:
+        b['pos'] = [F(r.randint(-64, 64), r.choice([1, 2, 4])) for _ in range(3)]
+    else:
+        b['pos'] = list(to_ref(a, [r.choice([-3, -1, 0, 0, 1, 2]) for _ in range(3)]))     # origins a few voxels apart
+    b['shape'] = [r.choice([1, 2, 3, 4, 6, 300, 70000, 2 ** 33]) for _ in range(3)]
+    dt = r.choice(DTYPES)
+    npd = np.dtype(dt)
+    n = r.choice([0, 1, 1, 2, 3, 5])
+    xs = []
+    for _ in range(n):
+        x = []
+        for _ax in range(3):
+            if npd.kind in 'iu':
+                info = np.iinfo(npd)
+                lo, hi = max(int(info.min), -2 ** 40), min(int(info.max), 2 ** 40)
+                cands = [lo, lo + 1, 0, 1, 2, 3, r.randint(0, 9), hi - 1, hi, hi // 2, r.randint(lo, hi)]
+                if lo < 0:
+                    cands += [-1, -2, r.randint(-9, -1)]
+                x.append(F(r.choice(cands)))
+            elif npd.kind == 'b':
+                x.append(F(r.choice([0, 1])))
+            else:
+                big = {'float16': 2 ** 11, 'float32': 2 ** 24, 'float64': 2 ** 40}[dt]
+                x.append(r.choice([F(r.randint(-40, 40), 8), F(r.randint(-40, 40), 8), F(r.randint(-big, big)), F(big), F(-big)]))
+        xs.append(x)
+    ys = [to_idx(b, to_ref(a, x)) for x in xs]
+    return a, b, dt, xs, ys
+
+
+def run_v2vdt_case(ctx, i, reqs, pending):
+    from highdicom.volume import VolumeToVolumeTransformer
+    a, b, dt, xs, ys = gen_v2vdt(ctx, i)
+    npd = np.dtype(dt)
+    A, B = make_geometry(a), make_geometry(b)
+    pts = np.array([[int(v) if npd.kind in 'iub' else float(v) for v in x] for x in xs], dtype=npd).reshape(-1, 3)
+    # generator sanity: the array holds exactly the intended indices
+    if any(F(float(pts[k, c])) != xs[k][c] for k in range(len(xs)) for c in range(3)):
+        ctx.note(f'v2vdt {i}: index not representable in {dt}; skipped')
+        return
+    info = np.iinfo(npd) if npd.kind in 'iu' else None
+    djson = {'kind': npd.kind, 'lo': int(info.min) if info else 0, 'hi': int(info.max) if info else 0,
+             'float': FLOAT_TAG.get(dt, 'f64')}
+    base = {'stream': 'v2vdt', 'index': i, 'seed': ctx.seed, 'dtype': dt, 'to_shape': b['shape'], 'n': len(xs)}
+    near_limit = bool(info) and any(abs(v) >= min(int(info.max), 2 ** 40) - 1 or v <= max(int(info.min), -2 ** 40) + 1
+                                    for x in xs for v in x)
+    for rounded, check in itertools.product((False, True), repeat=2):
+        case = dict(base, round_output=rounded, check_bounds=check)
+        st, tr = _call(VolumeToVolumeTransformer, A, B, round_output=rounded, check_bounds=check)
+        if st != 'ok':
+            ctx.fail(case, f'transformer could not be constructed: {tr}', site='v2v/construct')
+            continue
+        st, out = _call(tr, pts)
+        # exact expectation: the image of every index through physical space, rounded half to even if asked; for a
+        # narrower floating input type rounded to that type (documented: output dtype matches the input dtype)
+        if rounded:
+            want = [[F(round(v)) for v in y] for y in ys]
+        elif npd.kind == 'f' and dt != 'float64':
+            want = [[F(float(npd.type(float(v)))) for v in y] for y in ys]
+        else:
+            want = [list(y) for y in ys]
+        want_fail = check and any(v < F(-1, 2) or v > F(b['shape'][ax]) - F(1, 2) for w in want for ax, v in enumerate(w))
+        ctx.case(sample=case if i % 31 == 0 and rounded and check else None,
+                 nontrivial_key=('v2vdt', dt, rounded, check, st, near_limit, len(xs) > 0),
+                 stream='v2vdt', index_dtype=dt, v2v_mode=f"round={int(rounded)},check={int(check)}",
+                 outcome=('ok' if st == 'ok' else out), near_dtype_limit=near_limit)
+        if want_fail:
+            if st == 'ok':
+                ctx.fail(case, {'what': 'bounds check passed although a point lies outside the target',
+                                'indices': [[str(v) for v in x] for x in xs]}, site='v2v/bounds-missed')
+        elif st != 'ok':
+            ctx.fail(case, {'what': f'transformer raised {out} although no point lies outside the target (index dtype {dt})',
+                            'indices': [[str(v) for v in x] for x in xs], 'images': [[str(v) for v in y] for y in ys]},
+                     site='v2v/dtype-false-failure')
+        else:
+            o = np.asarray(out)
+            got = [[F(int(v)) if o.dtype.kind in 'iu' else F(float(v)) for v in row] for row in o.reshape(-1, 3)]
+            if got != want:
+                ctx.fail(case, {'what': f'index mapping differs from mapping through physical space (index dtype {dt}, result dtype {o.dtype})',
+                                'indices': [[str(v) for v in x] for x in xs], 'got': [[str(v) for v in g] for g in got],
+                                'want': [[str(v) for v in w] for w in want]}, site='v2v/dtype-mapping')
+            elif rounded and o.dtype.kind not in 'iu':
+                ctx.fail(case, f'rounded output has non-integer dtype {o.dtype}', site='v2v/dtype-kind')
+            elif not rounded and o.dtype.kind != 'f':
+                ctx.fail(case, f'unrounded output has non-floating dtype {o.dtype}', site='v2v/dtype-kind')
+        if st == 'ok':
+            o = np.asarray(out)
+            impl = ('ok', [[F(int(v)) if o.dtype.kind in 'iu' else F(float(v)) for v in row] for row in o.reshape(-1, 3)])
+        else:
+            impl = ('err', _err_kind(out))
+        reqs.append(('v2v', {'from': [rat(v) for v in affine12(a)], 'to': [rat(v) for v in affine12(b)], 'shape': b['shape'],
+                             'round': rounded, 'check': check, 'pts': [[rat(v) for v in x] for x in xs], 'dtype': djson}))
+        pending.append(('pts', case, impl, F(0)))
+
+
 # ------------------------------------------------------------------------------------------ L2: translated bodies on a grid
 def run_helpers(ctx, reqs, pending):
     """The translated per-axis crop/pad derivation composed with the model's slice semantics, against
@@ -949,7 +1060,8 @@ def check_plan(ctx, cell, ans):
 
 
 # ------------------------------------------------------------------------------------------ run / replay
-STREAMS = {'chain': run_chain_case, 'perturb': run_perturb_case, 'geq': run_geq_case, 'v2v': run_v2v_case}
+STREAMS = {'chain': run_chain_case, 'perturb': run_perturb_case, 'geq': run_geq_case, 'v2v': run_v2v_case,
+           'v2vdt': run_v2vdt_case}
 
 
 def _resolve(ctx, reqs, pending):
@@ -1000,7 +1112,8 @@ def run(ctx, only=None):
     if only is None:
         run_helpers(ctx, reqs, pending)
         run_slice_grid(ctx, reqs, pending)
-    budget = {'chain': ctx.n(1000, 12000), 'perturb': ctx.n(800, 9000), 'geq': ctx.n(1000, 10000), 'v2v': ctx.n(500, 5000)}
+    budget = {'chain': ctx.n(1000, 12000), 'perturb': ctx.n(800, 9000), 'geq': ctx.n(1000, 10000), 'v2v': ctx.n(500, 5000),
+              'v2vdt': ctx.n(600, 6000)}
     for stream, fn in STREAMS.items():
         if only is not None and only[0] != stream:
             continue
